@@ -4,14 +4,13 @@ use crate::support::*;
 use educe::Educe;
 use core::cmp::Ordering;
 #[derive(Educe)]
-#[repr(i64)]
-#[educe(Ord, Eq, PartialEq)]
-pub enum T { A { c: () }, Unit = 100, C(i64, #[educe(Ord(rank = "8"))] bool) = 255 }
-impl PartialOrd for T { fn partial_cmp(&self, o: &Self) -> Option<Ordering> { Some(::core::cmp::Ord::cmp(self, o)) } }
-pub fn values() -> Vec<T> { vec![T::A { c: () }, T::Unit, T::C(-5, false), T::C(-5, true), T::C(0, false), T::C(0, true), T::C(9, false), T::C(9, true)] }
-pub fn show(x: &T) -> String { #[allow(unused_variables)] match x { T::A { c: p0 } => format!("A({})", sv(p0)), T::Unit => format!("Unit()"), T::C(p0, p1) => format!("C({},{})", sv(p0), sv(p1)) } }
-pub fn o_disc(x: &T) -> i128 { match x { T::A { c: _ } => 0, T::Unit => 100, T::C(_, _) => 255 } }
-pub fn o_cmp(a: &T, b: &T) -> Ordering { match (a, b) { (T::A { c: a0 }, T::A { c: b0 }) => { let c = ::core::cmp::Ord::cmp(a0, b0); if c != Ordering::Equal { return c; } Ordering::Equal }, (T::Unit, T::Unit) => {  Ordering::Equal }, (T::C(a0, a1), T::C(b0, b1)) => { let c = ::core::cmp::Ord::cmp(a0, b0); if c != Ordering::Equal { return c; } let c = ::core::cmp::Ord::cmp(a1, b1); if c != Ordering::Equal { return c; } Ordering::Equal }, _ => o_disc(a).cmp(&o_disc(b)) } }
+#[educe(Eq, PartialOrd, PartialEq, Ord)]
+pub enum T { Unit(&'static u8, u8), C { f: u8, #[educe(Ord(rank = -1))] arg: char } }
+
+pub fn values() -> Vec<T> { vec![T::Unit(&3u8, 0), T::Unit(&3u8, 100), T::Unit(&3u8, 200), T::Unit(&200u8, 0), T::Unit(&200u8, 100), T::Unit(&200u8, 200), T::C { f: 0, arg: 'a' }, T::C { f: 0, arg: 'z' }, T::C { f: 100, arg: 'a' }, T::C { f: 100, arg: 'z' }, T::C { f: 200, arg: 'a' }, T::C { f: 200, arg: 'z' }] }
+pub fn show(x: &T) -> String { #[allow(unused_variables)] match x { T::Unit(p0, p1) => format!("Unit({},{})", sv(p0), sv(p1)), T::C { f: p0, arg: p1 } => format!("C({},{})", sv(p0), sv(p1)) } }
+pub fn o_disc(x: &T) -> i128 { match x { T::Unit(_, _) => 0, T::C { f: _, arg: _ } => 1 } }
+pub fn o_cmp(a: &T, b: &T) -> Ordering { match (a, b) { (T::Unit(a0, a1), T::Unit(b0, b1)) => { let c = ::core::cmp::Ord::cmp(a0, b0); if c != Ordering::Equal { return c; } let c = ::core::cmp::Ord::cmp(a1, b1); if c != Ordering::Equal { return c; } Ordering::Equal }, (T::C { f: a0, arg: a1 }, T::C { f: b0, arg: b1 }) => { let c = ::core::cmp::Ord::cmp(a0, b0); if c != Ordering::Equal { return c; } let c = ::core::cmp::Ord::cmp(a1, b1); if c != Ordering::Equal { return c; } Ordering::Equal }, _ => o_disc(a).cmp(&o_disc(b)) } }
 #[repr(C)] pub struct Wrap { pub pre: u8, pub x: T, pub post: [u8; 9] }
 pub fn wrap(i: usize, n: u8) -> Wrap { Wrap { pre: n, x: values().swap_remove(i), post: [n; 9] } }
-pub fn run(out: &mut Out) { let vs = values(); for (i, a) in vs.iter().enumerate() { for (j, b) in vs.iter().enumerate() { let e = o_cmp(a, b); let g = ::core::cmp::Ord::cmp(a, b); out.check(g == e, "ordlayout_18", "cmp", || format!("cmp({}, {}) = {:?} expected {:?}", show(a), show(b), g, e)); for n in [0u8, 1, 0x7f, 0x80, 0xff] { let wa = wrap(i, n); let wb = wrap(j, !n); let g = ::core::cmp::Ord::cmp(&wa.x, &wb.x); let e = o_cmp(a, b); out.check(g == e, "ordlayout_18", "cmp_neighbours", || format!("cmp({}, {}) with neighbour bytes {} = {:?} expected {:?}", show(a), show(b), n, g, e)); } } } }
+pub fn run(out: &mut Out) { let vs = values(); for (i, a) in vs.iter().enumerate() { for (j, b) in vs.iter().enumerate() { let e = o_cmp(a, b); let g = ::core::cmp::Ord::cmp(a, b); out.check(g == e, "ordlayout_18", "cmp", || format!("cmp({}, {}) = {:?} expected {:?}", show(a), show(b), g, e)); let g2 = ::core::cmp::PartialOrd::partial_cmp(a, b); out.check(g2 == Some(e), "ordlayout_18", "partial_is_some_cmp", || format!("partial_cmp({}, {}) = {:?} expected Some({:?})", show(a), show(b), g2, e)); for n in [0u8, 1, 0x7f, 0x80, 0xff] { let wa = wrap(i, n); let wb = wrap(j, !n); let g = ::core::cmp::Ord::cmp(&wa.x, &wb.x); let e = o_cmp(a, b); out.check(g == e, "ordlayout_18", "cmp_neighbours", || format!("cmp({}, {}) with neighbour bytes {} = {:?} expected {:?}", show(a), show(b), n, g, e)); } } } }
